@@ -170,3 +170,14 @@ func returnedToRoot(p *core.Prog, root *ssa.Function, r *ssa.Return) bool {
 	}
 	return f == root
 }
+
+// callTarget returns the repo function started/deferred/called by a call: the closure's function or the static callee.
+func callTarget(p *core.Prog, cc *ssa.CallCommon) *ssa.Function {
+	if mc, ok := cc.Value.(*ssa.MakeClosure); ok {
+		return mc.Fn.(*ssa.Function)
+	}
+	if g := core.Callee(cc); g != nil && p.InRepo(g) {
+		return g
+	}
+	return nil
+}
